@@ -36,8 +36,8 @@ EXTENDS Integers, Sequences, FiniteSets, TLC
 CONSTANTS SpaceIds,   \* subset of the catalogue below
           Fn1, Fn2,   \* objective, constraint: two ids out of "qs" "qv" "ls" "lv"
           NPts,       \* request points per space (1..3)
-          MaxCalls,   \* bound on the number of recorded original calls (CONSTRAINT)
-          MaxLevel,   \* bound on the behaviour length (CONSTRAINT)
+          MaxCalls,   \* bound on the number of recorded original calls (Guard)
+          MaxLevel,   \* bound on the behaviour length, in states (Guard)
           LinRule, GradRule
 
 VARIABLES cfg,   \* [normalize, useDb, storeJac, roundInts : BOOLEAN]  (preprocess_functions arguments)
@@ -72,8 +72,10 @@ Space(id) ==
     [] id = "intnorm" -> [intNorm |-> TRUE,  comps |-> <<C(-2, 2), CI(0, 4)>>]
     [] id = "mixed3"  -> [intNorm |-> FALSE, comps |-> <<C(-2, 2), C(3, 3), CI(0, 4)>>]
     [] id = "allint"  -> [intNorm |-> TRUE,  comps |-> <<CI(-2, 2), CI(0, 4)>>]
+    [] id = "intneg"  -> [intNorm |-> FALSE, comps |-> <<C(-2, 2), CI(-2, 2)>>]
 
-\* physical request points (the third one never shares its key with the first two)
+\* physical request points: the first two share their key on the spaces with an integer variable
+\* (normalised inputs), the third one never shares its key with them
 PhysPts(id) ==
   CASE id = "finite"  -> << <<R(1, 1), R(1, 2)>>,   <<R(-1, 2), R(2, 1)>>,  <<R(1, 2), R(1, 1)>> >>
     [] id = "equal"   -> << <<R(1, 1), R(3, 1)>>,   <<R(-1, 2), R(3, 1)>>,  <<R(1, 4), R(3, 1)>> >>
@@ -84,6 +86,8 @@ PhysPts(id) ==
     [] id = "mixed3"  -> << <<R(1, 2), R(3, 1), R(5, 2)>>, <<R(1, 2), R(3, 1), R(2, 1)>>,
                             <<R(-9, 8), R(3, 1), R(7, 2)>> >>
     [] id = "allint"  -> << <<R(1, 1), R(5, 2)>>,   <<R(1, 1), R(2, 1)>>,   <<R(-2, 1), R(7, 2)>> >>
+    \* -1/4 rounds to the integer 0 (numpy rounds -0.25 to the float -0.0)
+    [] id = "intneg"  -> << <<R(1, 2), R(-1, 4)>>,  <<R(1, 2), R(0, 1)>>,   <<R(-9, 8), R(1, 1)>> >>
 
 \* requests that only exist in normalised coordinates: a non-zero value of the INERT coordinate of
 \* a component whose bounds coincide (same physical point as the first request)
